@@ -8,6 +8,7 @@ import (
 	"fmt"
 	"os"
 	"os/exec"
+	"runtime/debug"
 	"sort"
 	"strconv"
 	"strings"
@@ -178,10 +179,13 @@ func (s *state) exec(op string) string {
 // does not reply in time it is killed and the answer is `hang`; it is respawned on the next request.
 
 type guardProc struct {
-	cmd *exec.Cmd
-	in  *bufio.Writer
-	out chan string
+	cmd     *exec.Cmd
+	in      *bufio.Writer
+	out     chan string
+	crashes int
 }
+
+const maxCrashes = 6
 
 var guard guardProc
 
@@ -197,6 +201,9 @@ func replayOps(ops []string) string {
 }
 
 func guardServe() {
+	// the real recursion depth here is a few frames; a small limit turns a runaway recursion into
+	// the fatal "stack overflow" after milliseconds instead of after filling 1 GB
+	debug.SetMaxStack(16 << 20)
 	rd := bufio.NewReaderSize(os.Stdin, 1<<20)
 	w := bufio.NewWriter(os.Stdout)
 	for {
@@ -305,9 +312,18 @@ func (r *run) do(op string) string {
 	}
 	var ans string
 	if r.s.risky(op) {
+		if guard.crashes >= maxCrashes {
+			// the violation has been recorded maxCrashes times already; every further crash costs a
+			// process start, so the case ends here instead
+			r.c.Comment("risky op not executed: " + op)
+			r.c.Note("risky:skipped")
+			r.dead = true
+			return ""
+		}
 		r.c.Note("risky:child")
 		ans = guard.replay(append(append([]string{}, r.history...), op))
 		if ans == "crash" || ans == "hang" {
+			guard.crashes++
 			r.c.Op(op, ans)
 			r.dead = true
 			return ans
